@@ -194,3 +194,11 @@ def native_replay(rep):
     if bad is None:
         return {"confirmed": False, "observed": f"no unlisted violation among {n} ballots (electorates 1..3)"}
     return {"confirmed": True, "observed": bad, "found_by": f"bounded ballot enumeration ({n} cases)"}
+
+
+# "(including the emergency quorum)": the emergency front end is the THRESHOLD strategy with the caller's emergency threshold and a one-voter minimum
+contract(F + "::EmergencyQuorum.__init__", "C06", is_init=True, params={"budget": "obj:ATP_Store", "kwargs": "empty"}, raises=[],      # (**kwargs: verified for calls without extra keyword arguments)
+         options={"opaque_ctor": ["BioAgent"]},
+         loops={"for i in range(n_agents)": {"invariant": ["len(self.colony) == _k"], "modifies": ["self.colony"], "types": {"self.colony": "list:obj:AgentProfile"}}},
+         requires=["n_agents >= 0"],
+         ensures={"emergency-configuration": "self.strategy == VotingStrategy.THRESHOLD and self.custom_threshold == emergency_threshold and self.min_voters == 1"})
